@@ -187,12 +187,17 @@ func (i *nodeInputJSON) fromInput(input *Input) error {
 		return err
 	}
 
+	unlockingScript := ""
+	if input.UnlockingScript != nil { // nil until the input is signed
+		unlockingScript = input.UnlockingScript.String()
+	}
+
 	i.ScriptSig = &struct {
 		Asm string `json:"asm"`
 		Hex string `json:"hex"`
 	}{
 		Asm: asm,
-		Hex: input.UnlockingScript.String(),
+		Hex: unlockingScript,
 	}
 
 	i.Vout = input.PreviousTxOutIndex
